@@ -32,6 +32,7 @@ import (
 
 	"go.minekube.com/gate/pkg/edition/java/netmc"
 	"go.minekube.com/gate/pkg/edition/java/proto/packet"
+	"go.minekube.com/gate/pkg/edition/java/proto/packet/title"
 	"go.minekube.com/gate/pkg/edition/java/proto/state"
 	"go.minekube.com/gate/pkg/edition/java/proto/version"
 	"go.minekube.com/gate/pkg/gate/proto"
@@ -172,6 +173,7 @@ type rig struct {
 	far     net.Conn
 	fc      *faultConn
 	cancel  context.CancelFunc // cancels the context the connection was created with
+	config  bool               // the outbound side is in the configuration phase (play packets are held)
 	h       *handler
 	rlDone  chan struct{} // the read loop returned
 	injDone chan struct{} // the peer goroutine of readLoop finished
@@ -195,6 +197,21 @@ func newRig(tw *lineWriter, st *stats, withHandler, failClose bool) *rig {
 	}
 	go io.Copy(io.Discard, b) // the peer reads whatever is written to it
 	return r
+}
+
+// enterConfig switches only the outbound side (the reader keeps decoding play packets):
+// from now on play-only packets are held by the play packet queue instead of written.
+func (r *rig) enterConfig() {
+	r.config = true
+	r.conn.SetOutboundState(state.Config)
+}
+
+// pkt is what a plain write sends: a keep-alive, or in the configuration phase a play-only packet
+func (r *rig) pkt(id int) proto.Packet {
+	if r.config {
+		return &title.Times{FadeIn: id, Stay: 1, FadeOut: 1}
+	}
+	return &packet.KeepAlive{RandomID: int64(id)}
 }
 
 func resOf(err error) string {
@@ -231,7 +248,12 @@ func (r *rig) op(thread, kind string, faults []string, closeBy string) {
 		r.tw.Emit(tracefmt.Rec{"ev": "ret", "thread": thread, "res": resOf(err), "err": errText(err)})
 	case "write":
 		r.tw.Emit(tracefmt.Rec{"ev": "call", "thread": thread, "op": "write"})
-		err := r.conn.WritePacket(&packet.KeepAlive{RandomID: 9})
+		var err error
+		if r.config {
+			err = r.conn.BufferPacket(r.pkt(9)) // held, or ErrClosedConn once closed
+		} else {
+			err = r.conn.WritePacket(r.pkt(9))
+		}
 		r.tw.Emit(tracefmt.Rec{"ev": "ret", "thread": thread, "res": resOf(err), "err": errText(err)})
 	case "ctxcancel":
 		r.tw.Emit(tracefmt.Rec{"ev": "ctxcancel", "thread": thread})
@@ -395,6 +417,9 @@ func runSchedule(tw *lineWriter, st *stats, n int, s schedule, step time.Duratio
 	tw.Emit(tracefmt.Rec{"ev": "reset", "n": n, "mode": "sched", "handler": withHandler, "closefail": s.CloseFail,
 		"autoread": !parkLoop})
 	r := newRig(tw, st, withHandler, s.CloseFail)
+	if !useReg && rng.Intn(4) == 0 {
+		r.enterConfig()
+	}
 	if parkLoop {
 		// the read loop is parked (as during a server switch): it will not notice a dead socket
 		r.conn.SetAutoReading(false)
@@ -446,6 +471,9 @@ func runFaults(tw *lineWriter, st *stats, n int, faults []string, rng *rand.Rand
 	tw.Emit(tracefmt.Rec{"ev": "reset", "n": n, "mode": "faults", "handler": true, "faults": strings.Join(faults, ","),
 		"closeby": closeBy, "closefail": failClose})
 	r := newRig(tw, st, true, failClose)
+	if rng.Intn(4) == 0 {
+		r.enterConfig()
+	}
 	c := sched.New(nil) // only records hook arrivals: no thread is registered, nothing blocks
 	c.Install()
 	r.readLoop("rl", faults, closeBy)
@@ -465,6 +493,9 @@ func runStress(tw *lineWriter, st *stats, n int, rng *rand.Rand) {
 	failClose := rng.Intn(3) == 0
 	tw.Emit(tracefmt.Rec{"ev": "reset", "n": n, "mode": "stress", "handler": true, "closefail": failClose})
 	r := newRig(tw, st, true, failClose)
+	if rng.Intn(4) == 0 {
+		r.enterConfig()
+	}
 	kinds := []string{"close", "unknown", "closewith", "write", "write", "switch", "switchw", "wreset", "wclosed", "ctxcancel"}
 	panics := []string{"none", "perr", "pstr", "prt", "pnil"}
 	var faults []string
